@@ -55,6 +55,11 @@ type Case struct {
 	// while DefaultDatasource carries another base URL and a failing limiter;
 	// BaseURL / Limiter are then set on it only if the case asks for them.
 	NewDS bool
+	// AtNanos: fraction of a second on the time passed to At (the parameter
+	// carries whole seconds: the second the instant lies in).
+	AtNanos int
+	// RetryAfter: the response carries a "Retry-After: 0" header.
+	RetryAfter bool
 }
 
 type pollutedLimiter struct{}
@@ -310,6 +315,7 @@ type recorder struct {
 	status   int
 	body     string
 	failWait bool
+	retry    bool
 }
 
 var errLimiter = errors.New("harness: limiter says no")
@@ -327,7 +333,11 @@ func (r *recorder) RoundTrip(req *http.Request) (*http.Response, error) {
 	r.seq++
 	r.reqAt = append(r.reqAt, r.seq)
 	r.reqs = append(r.reqs, req)
-	return &http.Response{StatusCode: r.status, Status: fmt.Sprintf("%d X", r.status), Body: io.NopCloser(strings.NewReader(r.body)), Header: http.Header{"Content-Type": {"text/xml"}}, Request: req, ProtoMajor: 1, ProtoMinor: 1}, nil
+	h := http.Header{"Content-Type": {"text/xml"}}
+	if r.retry {
+		h.Set("Retry-After", "0")
+	}
+	return &http.Response{StatusCode: r.status, Status: fmt.Sprintf("%d X", r.status), Body: io.NopCloser(strings.NewReader(r.body)), Header: h, Request: req, ProtoMajor: 1, ProtoMinor: 1}, nil
 }
 
 func elemXML(e Elem) string {
@@ -461,7 +471,7 @@ func isNilResult(v any) bool {
 
 func check(c Case) error {
 	ep := endpoints[c.Endpoint]
-	rec := &recorder{status: c.Status, body: c.bodyXML(ep.change), failWait: c.Limiter == 2}
+	rec := &recorder{status: c.Status, body: c.bodyXML(ep.change), failWait: c.Limiter == 2, retry: c.RetryAfter}
 	ds := &osmapi.Datasource{BaseURL: bases[c.Base], Client: &http.Client{Transport: rec}}
 	if c.Limiter != 0 {
 		ds.Limiter = rec
@@ -494,7 +504,7 @@ func check(c Case) error {
 	}
 	var fo []osmapi.FeatureOption
 	var no []osmapi.NotesOption
-	atTime := time.Unix(c.AtUnix, 0).In(time.FixedZone("z", c.AtZone*60))
+	atTime := time.Unix(c.AtUnix, int64(c.AtNanos)).In(time.FixedZone("z", c.AtZone*60))
 	if ep.feature && c.HasAt {
 		fo = append(fo, osmapi.At(atTime))
 	}
@@ -509,6 +519,23 @@ func check(c Case) error {
 		}
 	}
 	res, err := ep.call(ds, c.ViaPackage, &c, fo, no)
+	if c.NilClient && !c.ViaPackage {
+		// a call only reads its datasource; the fallback to the default client
+		// is looked up per call, so a client installed later is the one used
+		if ds.Client != nil {
+			return harness.Failf("C20/receiver-modified", "%s: the call stored a client in the datasource it was called on", ep.name)
+		}
+		rec2 := &recorder{status: c.Status, body: rec.body, failWait: rec.failWait, retry: rec.retry}
+		osmapi.DefaultDatasource.Client = &http.Client{Transport: rec2}
+		n1 := len(rec.reqs)
+		saved := *rec
+		ep.call(ds, false, &c, fo, no)
+		nOld := len(rec.reqs)
+		*rec = saved // the judgement below is about the first call
+		if nOld != n1 || len(rec2.reqs) != n1 {
+			return harness.Failf("C20/stale-default-client", "%s on a datasource without a client of its own: first call sent %d request(s) through the default client; after the default client was replaced a second call sent %d through the old and %d through the new one", ep.name, n1, nOld-n1, len(rec2.reqs))
+		}
+	}
 
 	if !limitValid {
 		if err == nil || len(rec.reqs) != 0 {
@@ -733,6 +760,8 @@ func genCase(t *rapid.T) Case {
 	c.HasAt = rapid.Bool().Draw(t, "hasAt")
 	c.AtUnix = int64(rapid.IntRange(1000000000, 1700000000).Draw(t, "at"))
 	c.AtZone = rapid.SampledFrom([]int{0, 0, 60, -300, 330, 765}).Draw(t, "zone")
+	c.AtNanos = rapid.SampledFrom([]int{0, 0, 1, 499999999, 500000000, 999999999}).Draw(t, "atNanos")
+	c.RetryAfter = rapid.IntRange(0, 3).Draw(t, "retryAfter") == 0
 	c.HasLimit = rapid.Bool().Draw(t, "hasLimit")
 	c.Limit = rapid.SampledFrom([]int{1, 100, 9999, 10000, 0, -1, 10001, 50}).Draw(t, "limit")
 	c.HasClosed = rapid.Bool().Draw(t, "hasClosed")
@@ -766,7 +795,7 @@ func genCase(t *rapid.T) Case {
 func TestEndpoints(t *testing.T) {
 	harness.Run(t, harness.Spec[Case]{
 		Name: "endpoints", N: 20000,
-		Rule:  "all 26 public Datasource calls (a quarter through the package-level wrappers) x ids (0, 1, large, lists of 0..40, one case in twelve 600..2000 ids giving request URLs of 6..20 KB) x At option with times in several zones x notes options (Limit in and out of [1,10000], MaxDaysClosed) x base URL (default, custom, custom with path prefix, custom with percent-escapes in its path) x datasource construction (struct literal, no Client of its own, package-level wrappers, osmapi.NewDatasource while DefaultDatasource carries another base URL and a failing limiter) x limiter (none, passing, failing) x status in {200,201,202,203,204,206,400,401,403,404,405,409,410,412,414,429,500,502,503,509} x response documents with 0,1,many elements of the requested kind mixed with other kinds, served by an in-process http.RoundTripper; oracle = the harness's transcription of API v0.6: exactly one GET, path and decoded query-parameter multiset (bbox within 1e-6, at= in UTC layout, ids comma-joined, q decoded), limiter waited exactly once strictly before the request and no request when it fails, 200 => exactly the elements of the requested kind in order, single-element calls reject != 1, typed errors per status carrying the request URL, NotFound only for 404, never partial data; non-trivial = non-200 status, or a list call with >= 2 ids, or an option present",
+		Rule:  "all 26 public Datasource calls (a quarter through the package-level wrappers) x ids (0, 1, large, lists of 0..40, one case in twelve 600..2000 ids giving request URLs of 6..20 KB) x At option with times in several zones and with fractions of a second (at= names the second the instant lies in) x responses with or without a Retry-After header x notes options (Limit in and out of [1,10000], MaxDaysClosed) x base URL (default, custom, custom with path prefix, custom with percent-escapes in its path) x datasource construction (struct literal, no Client of its own, package-level wrappers, osmapi.NewDatasource while DefaultDatasource carries another base URL and a failing limiter; datasources without a client are called twice with the default client replaced in between) x limiter (none, passing, failing) x status in {200,201,202,203,204,206,400,401,403,404,405,409,410,412,414,429,500,502,503,509} x response documents with 0,1,many elements of the requested kind mixed with other kinds, served by an in-process http.RoundTripper; oracle = the harness's transcription of API v0.6: exactly one GET, path and decoded query-parameter multiset (bbox within 1e-6, at= in UTC layout, ids comma-joined, q decoded), limiter waited exactly once strictly before the request and no request when it fails, 200 => exactly the elements of the requested kind in order, single-element calls reject != 1, typed errors per status carrying the request URL, NotFound only for 404, never partial data; non-trivial = non-200 status, or a list call with >= 2 ids, or an option present",
 		Gen:   genCase,
 		Check: check,
 		Classify: func(c Case) (bool, []string) {
